@@ -65,6 +65,21 @@ def _fuzz_case(job):
         out = bm.make_readable_bulk([('#777', '#fff'), (v, '#fff'), ('#000', v, True)])
         if len(out) != 3: return job, f'bulk returned {len(out)} results for 3 entries'
         if not lib.Color(v).is_valid and (out[1][1] in ('readable', 'very readable') or out[2][1] in ('readable', 'very readable')): return job, f'bulk claims readability for an invalid entry: {out!r}'
+        if isinstance(v, (tuple, list)):
+            # Python-equal doubles of the same container (1 == True == 1.0, 0 == False) that the library judges differently: in one bulk list, in
+            # both orders, every invalid member must still be reported invalid and every valid one must not be
+            sw = {1: True, 0: False}
+            dbl = [type(v)((sw.get(x, x) if type(x) is int else (int(x) if type(x) is bool else x)) for x in v),
+                   type(v)((float(x) if type(x) is int else x) for x in v)]
+            for w in dbl:
+                if w != v or [type(x) for x in w] == [type(x) for x in v]: continue
+                okv, okw = lib.Color(v).is_valid, lib.Color(w).is_valid
+                for lst in ([(v, '#fff'), (w, '#fff')], [(w, '#fff'), (v, '#fff')]):
+                    out2 = bm.make_readable_bulk(lst)
+                    if len(out2) != 2: return job, f'bulk returned {len(out2)} results for 2 entries'
+                    for (e, _), ok, o in zip(lst, [okv, okw] if lst[0][0] is v else [okw, okv], out2):
+                        if not ok and o[1] in ('readable', 'very readable'): return job, f'bulk claims readability for the invalid entry {e!r} listed next to its valid equal: {lst!r} -> {out2!r}'
+                        if ok and o[1] == 'invalid color': return job, f'bulk reports the valid entry {e!r} as invalid when listed next to its invalid equal: {lst!r} -> {out2!r}'
     except Exception as e:
         return job, f'raised {type(e).__name__}: {e}'
     return job, None
